@@ -96,9 +96,15 @@ type KeyCase struct {
 	Key    eng.Q `json:"key"`
 	Macro  bool  `json:"macro_clash"` // the template exports a macro with that name
 	Reject bool  `json:"reject"`
+	// Extends: the executed template extends a base (the exported macro, if any, is the executed template's own);
+	// Via: "" = Execute, "globals" = the key sits in the set's Globals, "blocks" = ExecuteBlocks
+	Extends bool   `json:"extends,omitempty"`
+	Via     string `json:"via,omitempty"`
 }
 
-func (c *KeyCase) ID() string { return fmt.Sprintf("context key %q macro=%v", string(c.Key), c.Macro) }
+func (c *KeyCase) ID() string {
+	return fmt.Sprintf("context key %q macro=%v extends=%v via=%s", string(c.Key), c.Macro, c.Extends, c.Via)
+}
 
 func (c *KeyCase) Exec(t *eng.T) {
 	t.Nontrivial()
@@ -106,7 +112,13 @@ func (c *KeyCase) Exec(t *eng.T) {
 	if c.Macro {
 		src = "{% macro " + string(c.Key) + "() export %}m{% endmacro %}x{{ ok }}"
 	}
-	set, _ := px.NewSet(nil)
+	set, _ := px.NewSet(map[string]string{"/base": "B{% block a %}b{% endblock %}{{ ok }}"})
+	if c.Extends {
+		src = "{% extends \"base\" %}{% block a %}x{% endblock %}"
+		if c.Macro {
+			src = "{% extends \"base\" %}{% macro " + string(c.Key) + "() export %}m{% endmacro %}{% block a %}x{% endblock %}"
+		}
+	}
 	tpl, out := px.Compile(set, src)
 	if tpl == nil {
 		t.Fail("ctxkey:harness", "%s: probe template does not compile: %s", c.ID(), out)
@@ -114,7 +126,24 @@ func (c *KeyCase) Exec(t *eng.T) {
 	}
 	ctx := pongo2.Context{"ok": "1", string(c.Key): "v"}
 	before := pongo2.Context{"ok": "1", string(c.Key): "v"}
-	o := px.Exec(tpl, ctx)
+	if c.Via == "globals" {
+		set.Globals[string(c.Key)] = "v"
+		ctx = pongo2.Context{"ok": "1"}
+		before = pongo2.Context{"ok": "1"}
+	}
+	var o px.Out
+	if c.Via == "blocks" {
+		site, msg, pan := eng.Protect(func() {
+			if _, err := tpl.ExecuteBlocks(ctx, []string{"a"}); err != nil {
+				o.Err = err.Error()
+			}
+		})
+		if pan {
+			o.Panic, o.PanicMsg = site, msg
+		}
+	} else {
+		o = px.Exec(tpl, ctx)
+	}
 	t.Outcome(o.Kind())
 	if !reflect.DeepEqual(ctx, before) {
 		t.Fail("caller-context-modified", "%s: the caller's Context changed", c.ID())
@@ -127,6 +156,49 @@ func (c *KeyCase) Exec(t *eng.T) {
 	}
 	if o.Panic != "" {
 		t.Fail("ctxkey:panic", "%s panics: %s", c.ID(), o.PanicMsg)
+	}
+}
+
+// ---- ExecuteBlocks: every block is rendered in a scope of its own ----
+
+type BlocksCase struct {
+	Child  string            `json:"child"`
+	Base   string            `json:"base"`
+	Blocks []string          `json:"blocks"`
+	Want   map[string]string `json:"want"`
+}
+
+func (c *BlocksCase) ID() string {
+	return fmt.Sprintf("ExecuteBlocks %v child=%q base=%q", c.Blocks, c.Child, c.Base)
+}
+
+func (c *BlocksCase) Exec(t *eng.T) {
+	t.Nontrivial()
+	set, _ := px.NewSet(map[string]string{"/main": c.Child, "/base": c.Base})
+	set.Globals["b"] = "gb"
+	tpl, out := px.CompileFile(set, "/main")
+	if tpl == nil {
+		t.Fail("blocks:harness", "%s does not compile: %s", c.ID(), out)
+		return
+	}
+	ctx := pongo2.Context{"a": "ca", "l": []int{1, 2}}
+	var res map[string]string
+	var err error
+	site, msg, pan := eng.Protect(func() { res, err = tpl.ExecuteBlocks(ctx, c.Blocks) })
+	t.Outcome(fmt.Sprint(res, err, pan))
+	if pan {
+		t.Fail("blocks:panic", "%s panics: %s (%s)", c.ID(), msg, site)
+		return
+	}
+	if err != nil {
+		t.Fail("blocks:error", "%s fails: %v", c.ID(), err)
+		return
+	}
+	if !reflect.DeepEqual(res, c.Want) {
+		t.Fail("blocks:scope", "%s gives %v, want %v (a binding made while one block was rendered must be gone when the next block is rendered)", c.ID(), res, c.Want)
+	}
+	if !reflect.DeepEqual(ctx, pongo2.Context{"a": "ca", "l": []int{1, 2}}) {
+		t.Fail("caller-context-modified", "%s: the caller's Context changed", c.ID())
 	}
 }
 
@@ -215,6 +287,12 @@ func run(r *eng.Runner) {
 		}
 	}
 
+	r.Group("execute-blocks", "c12.blocks", "ExecuteBlocks on a child whose requested blocks are spread over child and base: a set / with / for binding made in one block is not visible in the next block")
+	probe := "{{ a }},{{ b }}"
+	for _, bw := range [][2]string{{`{% set a = "child" %}{% set b = "child" %}`, "[one:child,child]"}, {`{% with a="w" %}{% set b = "ws" %}{% endwith %}{% set a = "after" %}`, "[one:after,gb]"}, {`{% for a in l %}{% set b = a %}{% endfor %}{% set q = 1 %}`, "[one:ca,gb]"}} {
+		r.Do(&BlocksCase{Child: `{% extends "base" %}{% block one %}` + bw[0] + `[one:` + probe + `]{% endblock %}`, Base: `{% block one %}base-one{% endblock %}{% block two %}[two:` + probe + `]{% endblock %}{% block three %}[three:{{ q }}` + probe + `]{% endblock %}`,
+			Blocks: []string{"one", "two", "three"}, Want: map[string]string{"one": bw[1], "two": "[two:ca,gb]", "three": "[three:ca,gb]"}})
+	}
 	r.Group("context-keys", "c12.key", "context keys: identifiers are accepted; keys that are not identifiers or clash with an exported macro are rejected")
 	for _, k := range []struct {
 		k      string
@@ -223,11 +301,23 @@ func run(r *eng.Runner) {
 		r.Do(&KeyCase{Key: eng.Q(k.k), Reject: k.reject})
 	}
 	r.Do(&KeyCase{Key: "mac", Macro: true, Reject: true})
+	// the same rules when the executed template extends a base, when the key comes from the set's Globals, and for ExecuteBlocks
+	for _, via := range []string{"", "globals", "blocks"} {
+		r.Do(&KeyCase{Key: "mac", Macro: true, Reject: true, Extends: true, Via: via})
+		r.Do(&KeyCase{Key: "other", Reject: false, Extends: true, Via: via})
+		r.Do(&KeyCase{Key: "a-b", Reject: true, Extends: true, Via: via})
+		r.Do(&KeyCase{Key: "fine", Reject: false, Extends: true, Via: via})
+		if via == "globals" {
+			r.Do(&KeyCase{Key: "mac", Macro: true, Reject: true, Via: via})
+			r.Do(&KeyCase{Key: "a b", Reject: true, Via: via})
+		}
+	}
 	r.Do(&KeyCase{Key: "other", Macro: false, Reject: false})
 }
 
 func init() {
 	eng.RegisterCase("c12.key", func() eng.Case { return &KeyCase{} })
+	eng.RegisterCase("c12.blocks", func() eng.Case { return &BlocksCase{} })
 	eng.Register(&eng.Check{
 		ID:    "C12",
 		Title: "Scoping: bindings stay in their construct; caller data is never modified",
